@@ -47,6 +47,21 @@ def _valid(c):
     return s.check() == z3.unsat
 
 
+def _same_lin(a, b, rel=1e-11):
+    """two linear forms in the trace symbols agree coefficient-wise up to floating-point rounding of the constants (1/dEF**n is computed in
+    floats by the code and by the specification, possibly one ulp apart); exact equality is tried first"""
+    if _valid(lift(a) == lift(b)):
+        return True
+    from pyvc.phase import linform
+    la, lb = linform(lift(a)), linform(lift(b))
+    scale = max([abs(float(v)) for v in lb.values()] + [abs(float(v)) for v in la.values()] + [1e-300])
+    res = all(abs(float(la.get(k, 0)) - float(lb.get(k, 0))) <= rel * scale for k in set(la) | set(lb))
+    import os, sys
+    if not res and os.environ.get("C13_DEBUG"):
+        print("MISMATCH", {k: float(v) for k, v in la.items()}, {k: float(v) for k, v in lb.items()}, file=sys.stderr)
+    return res
+
+
 def _static_unit(fder, nEF, additive, k_resolved, hole_like=False, use_factor=True, tiers=("quick", "thorough"), prop="C13", nk_int=1):
     name = "StaticCalculator.__call__[fder=%d,nEF=%d,%s,%s%s%s]" % (fder, nEF, "additive" if additive else "non-additive",
                                                                    "k-resolved" if k_resolved else "integrated",
@@ -79,12 +94,17 @@ def _static_unit(fder, nEF, additive, k_resolved, hole_like=False, use_factor=Tr
         EFmin = Ef[0] - extra * d
         ngrid = nEF + 2 * extra
         # one representative energy per class w.r.t. the extended grid
-        classes = [EFmin - 0.5]
+        # with the default spacing 0.001 of a single Fermi level (not a binary fraction) an energy "exactly on a grid point" is not
+        # representable: which side it falls on is decided by rounding in (E - EFmin) / dEF, a measure-zero case outside the property; the
+        # on-grid classes are explored for the binary spacing 0.25 only
+        on_grid = nEF > 1
+        classes = [EFmin - 2 * d]
         for i in range(ngrid):
-            classes.append(EFmin + i * d)
+            if on_grid:
+                classes.append(EFmin + i * d)
             if i < ngrid - 1:
-                classes.append(EFmin + i * d + 0.1)
-        classes.append(EFmin + (ngrid - 1) * d + 0.3)
+                classes.append(EFmin + i * d + 0.4 * d)
+        classes.append(EFmin + (ngrid - 1) * d + 1.2 * d)
         nk = 2 if k_resolved else nk_int
         NB = 4
         # band groups as get_bands_in_range_groups hands them out: contiguous in the band index; sea groups (fder = 0) start at band 0,
@@ -174,14 +194,14 @@ def _static_unit(fder, nEF, additive, k_resolved, hole_like=False, use_factor=Tr
                 U.ensure("k-resolved result has one row per k-point", tuple(out.shape) == (nk, nEF))
                 for ik in range(nk):
                     for j in range(nEF):
-                        ok = ok and _valid(lift(out[ik, j]) == lift(per_k[ik][j]) * sgn / 2.0)
+                        ok = ok and _same_lin(out[ik, j], lift(per_k[ik][j]) * sgn / 2.0)
             else:
                 U.ensure("integrated result has one value per Fermi level", tuple(out.shape) == (nEF,))
                 for j in range(nEF):
                     want = 0
                     for ik in range(nk):
                         want = want + per_k[ik][j]
-                    ok = ok and _valid(lift(out[j]) == lift(want) * sgn / 2.0 / nk)
+                    ok = ok and _same_lin(out[j], lift(want) * sgn / 2.0 / nk)
             U.ensure("out[j] = c/(V nk) * (n-th central difference of) the sum over groups with E_g <= E_F of the formula's trace", ok)
         U.run(body, check_feasible=False, max_paths=400000)
     Unit(prop, name, prove=prove, scope="shape:nEF=%d, <=3 groups/k, every energy class of the extended Fermi grid" % nEF, expect_min=4, tiers=tiers)
